@@ -40,7 +40,14 @@ def respell(rnd, f):
             for n in reversed(rest):
                 val = {n: val}
             nodes = head
-        out[".".join(nodes)] = val
+        key = ".".join(nodes)
+        if key in out:
+            # two conditions would end up under one spelling of a key (e.g. 'doc.a.n.$eq' nested under 'doc.a' next to 'doc.a.$exists'):
+            # a Python mapping cannot hold both, so this entry keeps its original spelling
+            key, val = k, v
+            if key in out:
+                return dict(f)
+        out[key] = val
     return out
 
 
